@@ -60,3 +60,29 @@ Theorem C07_source_prechecks : forall N (s : Builder.src),
   Builder.precheck_reject N s =
   precheck_of try_from_iter_prechecks (Builder.hint_lo s) (Builder.hint_hi s) (Z.of_nat N).
 Proof. exact tie_prechecks. Qed.
+
+(* ---- tier T3: the BODIES of IntrusiveArrayBuilder::extend (src/internal.rs), GenericArray::
+   try_from_iter (src/lib.rs) and try_boxed_from_iter (src/impl_alloc.rs) as regenerated on every
+   run (coq/gen/GenCollect.v: the size-hint arms, the fill with its zip order and closure
+   statements, the short-circuit Err condition, the successful ending), executed over an arbitrary
+   scripted source by the interpreter of Collect.v, ARE the model's functions: outcome, destructor
+   runs and number of next() calls, for every N and every source ---- *)
+From GA Require Import Pipe Collect CollectTie.
+From GAGen Require Import GenCollect.
+
+Theorem C07_source_try_from_iter : forall N (s : Builder.src),
+  run_collect N s gen_extend gen_try_from_iter = Some (try_from_iter N s).
+Proof. exact tie_try_from_iter. Qed.
+
+Theorem C07_source_try_boxed_from_iter : forall N (s : Builder.src),
+  run_collect N s gen_extend gen_try_boxed_from_iter = Some (try_boxed_from_iter N s).
+Proof. exact tie_try_boxed_from_iter. Qed.
+
+(* so of the regenerated functions themselves: an array comes back only for exactly N items *)
+Theorem C07_source_ok_only_exact : forall N (s : Builder.src) a e p,
+  run_collect N s gen_extend gen_try_from_iter = Some (Ok a, e, p) ->
+  exact_source N s a /\ e = [] /\ p = S N /\ precheck_reject N s = false.
+Proof.
+  intros N s a e p H. rewrite tie_try_from_iter in H. injection H as H.
+  exact (ok_only_exact N s a e p H).
+Qed.
